@@ -86,6 +86,7 @@ fn gen_case(r: &mut Rng, k: usize) -> Case {
         rng: r.next() | 1,
         sticky: *r.pick(&[0, 50, 80]),
         script: vec![],
+        target: 0,
     }
 }
 
